@@ -44,7 +44,7 @@ __CPROVER_ensures(g_exc == 0 ==> ($this->m_gzip.avail_in == 0 && g_z_in == @ZI0 
 # loop 1: slices of the input; loop 2: deflate steps of one slice.  locals: $L1 max_slice, $L2 slice
 W_LOOP = '''
   __CPROVER_assigns($1, $2, ''' + ZASSIGN + ''', @BINDS)
-  __CPROVER_loop_invariant(g_exc == 0 && g_z_open && !g_fwd_bad && g_fwd == g_z_out && $L1 == 524288)
+  __CPROVER_loop_invariant(g_exc == 0 && g_z_open && !g_fwd_bad && g_fwd == g_z_out && $L1 > 0 && $L1 <= 524288)
   __CPROVER_loop_invariant($2 <= @N0 && g_z_in == @ZI0 + (@N0 - $2) && ($2 == @N0 || $this->m_gzip.avail_in == 0))
   __CPROVER_loop_invariant(__CPROVER_same_object($1, @P0) && __CPROVER_POINTER_OFFSET($1) == __CPROVER_POINTER_OFFSET(@P0) + (@N0 - $2))
   __CPROVER_decreases($2)
